@@ -13,9 +13,28 @@ package v2
 //@ spec func orKey(p *phase0.BLSPubKey, d *phase0.BLSPubKey) *phase0.BLSPubKey = p != nil ? p : d
 //@
 //@ // a decoded configuration has no JSON null among its relay and proposer entries (rejected by UnmarshalJSON)
-//@ // (the *decimal.Decimal values of a configuration are separately allocated objects, not fields of resolved relay settings)
-//@ spec func validConfig(e *ExecutionConfig) bool = e != nil && e.MinValue >= 0 && (forall a string :: in(e.Relays, a) ==> e.Relays[a] != nil && e.Relays[a].MinValue >= 0) && (forall k int :: 0 <= k && k < len(e.Proposers) ==> validProposer(e.Proposers[k]))
-//@ spec func validProposer(p *ProposerConfig) bool = p != nil && p.MinValue >= 0 && (forall a string :: in(p.Relays, a) ==> p.Relays[a] != nil && p.Relays[a].MinValue >= 0)
+//@ // what the decoders establish: no JSON null among the relay and proposer entries ...
+//@ spec func noNullRelays(m map[string]*BaseRelayConfig) bool = forall a string :: in(m, a) ==> m[a] != nil
+//@ spec func noNullProposerRelays(p *ProposerConfig) bool = forall a string :: in(p.Relays, a) ==> p.Relays[a] != nil
+//@ // ... and what is assumed of a decoded configuration: the *decimal.Decimal values are separately allocated objects,
+//@ // not fields of resolved relay settings
+//@ spec func validConfig(e *ExecutionConfig) bool = e != nil && e.MinValue >= 0 && noNullRelays(e.Relays) && (forall a string :: in(e.Relays, a) ==> e.Relays[a].MinValue >= 0) && (forall k int :: 0 <= k && k < len(e.Proposers) ==> validProposer(e.Proposers[k]))
+//@ spec func validProposer(p *ProposerConfig) bool = p != nil && p.MinValue >= 0 && noNullProposerRelays(p) && (forall a string :: in(p.Relays, a) ==> p.Relays[a].MinValue >= 0)
+//@
+//@ // C16: the decoders refuse documents with null entries, so that resolving proposer settings never meets a nil entry
+//@ func (*ExecutionConfig).UnmarshalJSON
+//@   requires e != nil
+//@   loop 1
+//@     invariant forall a string {visited(1, a)} :: visited(1, a) ==> data.Relays[a] != nil
+//@   loop 2
+//@     invariant -1 <= rangeindex && rangeindex < len(data.Proposers)
+//@     invariant forall k int :: 0 <= k && k <= rangeindex ==> data.Proposers[k] != nil
+//@   ensures result == nil ==> noNullRelays(e.Relays) && (forall k int :: 0 <= k && k < len(e.Proposers) ==> e.Proposers[k] != nil)
+//@ func (*ProposerConfig).UnmarshalJSON
+//@   requires p != nil
+//@   loop 1
+//@     invariant forall a string {visited(1, a)} :: visited(1, a) ==> data.Relays[a] != nil
+//@   ensures result == nil ==> noNullProposerRelays(p)
 //@
 //@ func setRelayConfig
 //@   requires config != nil && relayConfig != nil
